@@ -72,6 +72,7 @@ COMMON = ('Static structural rules decided on the type-checked program (rustc bu
 
 # Rule groups for dependent properties: a property that is *derived* from another (DESIGN §5) runs that property's necessary conditions too.
 G_EXCL = [(RP.tok_exec, None), (RP.pa_rules, {'PA-excl', 'PA-stuck', 'PA'}), (RP.tok_requeue, None), (RQ.qd_queue, None), (RP.tr_immediate, None), (RO.c05_drop, None)]
+G_POOL = [(RO.c03_dormant, None), (RO.c10_fetch, None), (RO.c10_thread, None)]
 G_ORDER = [(RO.c02_append, None), (RO.free_delegates, None, ['|delegates']), (RQ.qd_queue, None), (RP.tr_immediate, None), (RP.tr_sibling, None, ['sync']), (RP.tok_requeue, None),
            (RP.pa_rules, {'PA-excl', 'PA'}), (RP.tok_exec, None)]
 
@@ -136,7 +137,7 @@ prop('C07', COMMON +
      ['check-and-register / set-and-take atomic (LW1, LW2, LW-owner)', 'signal once, after completion (ORD-C07-signal)', 'job owned by the queue (ORD-C07-own)', '.sync() waits on the queue (ORD-C07-syncwait)', 'poll never defers on Idle/Pending (TR-defer)',
       'abandoned poll-side drain is taken over; the real waker is installed only after the queue is parked (PARK-wake, ORD-C06-drain)', 'poll-side drain holds and releases the token (TOK-exec, TOK-leak)', 'the awaiting task is woken with no internal lock held (BL)'],
      ['equality of the delivered value with what the user closure computed', 'ordering of sibling polls as executions'],
-     [(RW.lw, None, ['|waker']), (RW.lw_owner, None), (RW.lw_cancel, None), (RW.lw_register, None, ['SchedulerFuture']), (RO.c07_signal, None), (RO.c07_own, None), (RO.c07_syncwait, None), (RP.tr_defer, None, ['SchedulerFuture::poll']), (RP.park_wake, None), (RO.c06_drain, None, ['drain_queue', 'DW-table', 'DoubleWaker']), (RP.tok_exec, None), (RP.tok_leak, None, ['SchedulerFuture']), (RL.bl, None), (RQ.qd_run, None, ['FutureJob', 'UnsafeJob::run']), (RO.free_delegates, None, ['future_desync|', 'FutureId'])])
+     [(RW.lw, None, ['|waker']), (RW.lw_owner, None), (RW.lw_cancel, None), (RW.lw_register, None, ['SchedulerFuture']), (RO.c07_signal, None), (RO.c07_own, None), (RO.c07_syncwait, None), (RP.tr_defer, None, ['SchedulerFuture::poll']), (RP.park_wake, None), (RO.c06_drain, None, ['drain_queue', 'DW-table', 'DoubleWaker']), (RP.tok_exec, None), (RP.tok_leak, None, ['SchedulerFuture']), (RL.bl, None), (RQ.qd_run, None, ['FutureJob', 'UnsafeJob::run']), (RO.free_delegates, None, ['future_desync|', 'FutureId'])] + G_POOL)
 
 prop('C08', COMMON +
      'Decided (ORD-C08): the two oneshot channels of future_sync are split so that the slot job holds the queue-ready sender and the task-finished receiver and the SyncFuture the opposite ends; the slot job announces, waits, then signals, also when cancelled; '
@@ -144,7 +145,7 @@ prop('C08', COMMON +
      'SyncFuture drops the user future before the completion sender and has no Drop impl; the slot is reserved at call time (ORD-C02-append).',
      ['channel pairing, slot job order, SyncFuture state order, field drop order (ORD-C08)', 'slot reserved at call time (ORD-C02-append)', 'signal after completion, once (ORD-C07-signal)', 'the cancel wake-up reaches the queue even when it is being drained by a polling task (ORD-C06-drain, PARK-wake)'],
      ['deadlock-freedom of nested awaits as executions', 'that a mid-operation drop happens "before any later operation begins" follows from drop order + slot job order but is a statement about executions'],
-     [(RO.c08, None), (RO.c02_append, None), (RO.c07_signal, None), (RO.c06_drain, None, ['drain_queue', 'DW-table', 'DoubleWaker']), (RP.park_wake, None), (RL.bl, None), (RO.free_delegates, None, ['future_sync|'])] + G_EXCL)
+     [(RO.c08, None), (RO.c02_append, None), (RO.c07_signal, None), (RO.c06_drain, None, ['drain_queue', 'DW-table', 'DoubleWaker']), (RP.park_wake, None), (RL.bl, None), (RO.free_delegates, None, ['future_sync|'])] + G_EXCL + G_POOL)
 
 prop('C09', COMMON +
      'Decided: a Busy outcome of try_sync has written nothing (every path to Err(Busy) leaves the token untouched: TOK-leak); try_sync never reaches a blocking primitive except the bounded join of finished threads (ORD-C09-noblock); '
@@ -179,7 +180,7 @@ prop('C13', COMMON +
      'QueueResumer has no Drop impl and resume consumes it. "Later work waits, then continues in order" is derived from the C01/C02/C06 rules for a job that stays Pending (TOK-requeue, QD-queue, PARK-wake).',
      ['suspend job shape (ORD-C13)', 'a Pending job keeps the queue and is resumed by its waker (TOK-requeue, QD-queue, PARK-wake)', 'sync callers that pile up behind a suspension each stay registered for the wake-up (QD-waiters)'],
      ['all dynamic content: this is the thinnest claim; order of held operations after resumption is derived, not separately decided'],
-     [(RO.c13, None), (RP.park_wake, None), (RQ.qd_wake_blocked, None)] + G_ORDER)
+     [(RO.c13, None), (RP.park_wake, None), (RQ.qd_wake_blocked, None)] + G_ORDER + G_POOL)
 
 prop('C14', COMMON +
      'Decided: the four lifetime-erasure obligations — a sync caller does not return before its lifetime-erased job has been run and dropped (UA-wait), the payload pointer is dereferenced only inside jobs of the object\'s own queue (UA-confine), '
